@@ -32,7 +32,8 @@ CancelledStates == {"CANCELLED", "CANCELLED_AND_NOTIFIED"}
 
 \* finite maps with a growing domain
 EmptyMap == [x \in {} |-> 0]
-Put(m, key, v) == [x \in DOMAIN m \cup {key} |-> IF x = key THEN v ELSE m[x]]
+\* eager (a lazily evaluated function value in a state makes TLC fail when it spills its queue to disk)
+Put(m, key, v) == (key :> v) @@ m
 Get(m, key, dflt) == IF key \in DOMAIN m THEN m[key] ELSE dflt
 Has(m, key) == key \in DOMAIN m
 
